@@ -72,7 +72,12 @@ def run(ctx, log):
              "functie f(a, b, c) { [type(a), type(b), type(c)] } functie g(p, q, r) { p + q + r } g(1, 2, 3); [f(1), f(), f(1, 2)]",
              "functie t(n) { stel s = s; als n > 0 { s = n; t(n - 1) } type(s) } t(3)",
              "functie f() { stel a = 1; { stel b = b; type(b) } } functie g() { stel u = 1; { stel v = [2]; 0 } } g(); f()"]
-    runcorr.run_corr(ctx, fresh, log, budget=5000, stages=("compile", "eval"), label="fresh-activations", shard_size=8)
+    fo = runcorr.run_corr(ctx, fresh, log, budget=5000, stages=("compile", "eval"), label="fresh-activations", shard_size=8)["eval"]
+    want = ["OK #0=S110.117.108.108", "OK #0=S110.117.108.108", None, "OK #0=S105.110.116", "OK #0=S110.117.108.108"]
+    for s, w, o in zip(fresh, want, fo):
+        ctx.seen(s)
+        if w is not None and progcheck.head(o) != w:
+            ctx.violate("an activation saw something an earlier activation (or the call itself) left behind", source=s, observed=progcheck.head(o)[:200], expected=w)
     # the whole family: every alignment of the stack against its 16-bit limit, both build profiles
     fam = progcheck.deep_recursion_family()
     frel = vlib.nlh("eval", ["6000000 " + vlib.hexs(s) for s, _ in fam], tag="c12f", timeout=600)
